@@ -57,25 +57,27 @@ type Conn struct {
 	Created    bool
 
 	// records
-	Streams     int
-	Method      string
-	OutMD       metadata.MD
-	HasDeadline bool
-	Deadline    time.Time
-	StreamAt    time.Time
-	Sent        []proto.Message // retained pointers; contents compared at the end
-	SentBytes   [][]byte
-	CloseSends  int
-	Closes      int
-	ConnCloses  int
-	next        int // next script item
-	RecvCalls   int
-	Events      []string
+	Streams       int
+	Method        string
+	OutMD         metadata.MD
+	HasDeadline   bool
+	Deadline      time.Time
+	StreamAt      time.Time
+	Sent          []proto.Message // retained pointers; contents compared at the end
+	SentBytes     [][]byte
+	CloseSends    int
+	Closes        int
+	ConnCloses    int
+	next          int // next script item
+	RecvCalls     int
+	Events        []string
 	ctxCancelSeen bool
 	sendCalls     int
 }
 
-func NewConn() *Conn { return &Conn{changed: make(chan struct{}), SendErrAt: -1, release: make(chan struct{})} }
+func NewConn() *Conn {
+	return &Conn{changed: make(chan struct{}), SendErrAt: -1, release: make(chan struct{})}
+}
 
 func (c *Conn) hook() {
 	if c.Hook != nil {
